@@ -180,8 +180,11 @@ def gen_retransfer(sh: Shard, idx: int, rng) -> dict:
             "w_mapped": rng.random() < 0.75, "hostile": None, "placement": None}
 
 
-def gen_case(sh: Shard, idx: int) -> dict:
-    rng = sh.rng("case", idx)
+LOCAL_BATCH = 6  # a local->local transfer costs milliseconds (no subprocess): each visit runs 6 combinations
+
+
+def gen_case(sh: Shard, idx: int, variant: int = 0) -> dict:
+    rng = sh.rng("case", idx, variant) if variant else sh.rng("case", idx)
     cls = CLS_CYCLE[(idx + idx // len(ROUTES)) % len(CLS_CYCLE)]
     if cls == "concurrent":
         return gen_concurrent(sh, idx, rng)
@@ -192,7 +195,7 @@ def gen_case(sh: Shard, idx: int) -> dict:
     s, d = ROUTES[(idx + idx // len(ROUTES)) % len(ROUTES)]
     order = list(range(len(COMBOS)))
     sh.rng("combo-order", s, d).shuffle(order)
-    kind, writable, renamed, dst_state = COMBOS[order[(idx // len(ROUTES)) % len(COMBOS)]]
+    kind, writable, renamed, dst_state = COMBOS[order[(idx // len(ROUTES) + variant * (len(COMBOS) // LOCAL_BATCH)) % len(COMBOS)]]
     thorough = not sh.quick()
     hostile = rng.random() < float(os.environ.get("VF_C22_HOSTILE", "0.35"))  # (dev knob; default = the documented 35%)
     placement = rng.choice(PLACEMENTS) if hostile else None
@@ -229,7 +232,7 @@ def gen_case(sh: Shard, idx: int) -> dict:
     else:
         tree = T.gen_tree(rng, max_entries=30 if thorough else 12, names=tree_names, sizes=sizes, symlinks=True,
                           max_total=4_000_000 if thorough else 400_000)
-    case = {"idx": idx, "src_loc": s, "dst_loc": d, "kind": kind, "writable": writable, "dst_state": dst_state,
+    case = {"idx": idx if not variant else f"{idx}v{variant}", "src_loc": s, "dst_loc": d, "kind": kind, "writable": writable, "dst_state": dst_state,
             "src_name": src_name, "dst_name": dst_name, "src_parent": src_parent, "dst_parent": dst_parent,
             "w_mapped": rng.random() < 0.75, "tree": tree, "hostile": hclass, "placement": placement}
     if rng.random() < 0.3:
@@ -733,11 +736,15 @@ def run_shard(sh: Shard) -> None:
     try:
         while time.time() < deadline:
             case = gen_case(sh, idx)
-            try:
-                run_case(sh, R, case)
-            except Exception as e:
-                sh.inconclusive_because(f"harness error in case {idx}: {short_tb(e)}")
-                R.drop_env(hard=True)
+            batch = [case]
+            if case.get("cls") is None and case["src_loc"] == case["dst_loc"] == "L":
+                batch += [gen_case(sh, idx, v) for v in range(1, LOCAL_BATCH)]
+            for c in batch:
+                try:
+                    run_case(sh, R, c)
+                except Exception as e:
+                    sh.inconclusive_because(f"harness error in case {c['idx']}: {short_tb(e)}")
+                    R.drop_env(hard=True)
             idx += sh.nshards
             n += 1
             if n % 150 == 0:  # bound the data manager's memory of old cases
